@@ -193,7 +193,8 @@ func transformFile(path string, subs []importSub, mono bool, ranges map[int]bool
 		return nil, nil, err
 	}
 	// cheap pre-filter
-	need := mono || len(ranges) > 0
+	yields := os.Getenv("VERIF_NO_YIELD") == "" && (bytes.Contains(src, []byte("\tgo ")) || bytes.Contains(src, []byte(" go ")))
+	need := mono || len(ranges) > 0 || yields
 	for _, s := range subs {
 		if bytes.Contains(src, []byte(strconv.Quote(s.from))) {
 			need = true
@@ -279,6 +280,29 @@ func transformFile(path string, subs []importSub, mono bool, ranges map[int]bool
 			}
 		}
 	}
+	if yields {
+		// a scheduling point after every go statement: the spawning goroutine parks (like at a lock acquisition) so that
+		// the simulation decides whether it or the goroutine it has just started goes on first
+		if n := insertYields(f); n > 0 {
+			applied = append(applied, "goyield")
+			spec := &ast.ImportSpec{Name: ast.NewIdent("verifsimyield"), Path: &ast.BasicLit{Kind: token.STRING, Value: strconv.Quote(modPath + "/verifsim/simsync")}}
+			added := false
+			for _, d := range f.Decls {
+				if gd, ok := d.(*ast.GenDecl); ok && gd.Tok == token.IMPORT {
+					gd.Specs = append(gd.Specs, spec)
+					if !gd.Lparen.IsValid() {
+						gd.Lparen = gd.Pos()
+						gd.Rparen = gd.End()
+					}
+					added = true
+					break
+				}
+			}
+			if !added {
+				f.Decls = append([]ast.Decl{&ast.GenDecl{Tok: token.IMPORT, Specs: []ast.Spec{spec}}}, f.Decls...)
+			}
+		}
+	}
 	if len(applied) == 0 {
 		return nil, nil, nil
 	}
@@ -317,4 +341,35 @@ func writeModfile(repo, scratch string) error {
 		return troublef("%v", err)
 	}
 	return nil
+}
+
+// insertYields puts `verifsimyield.Yield()` after every go statement of a statement list.
+func insertYields(f *ast.File) int {
+	n := 0
+	yield := func() ast.Stmt {
+		return &ast.ExprStmt{X: &ast.CallExpr{Fun: &ast.SelectorExpr{X: ast.NewIdent("verifsimyield"), Sel: ast.NewIdent("Yield")}}}
+	}
+	fix := func(list []ast.Stmt) []ast.Stmt {
+		var out []ast.Stmt
+		for _, st := range list {
+			out = append(out, st)
+			if _, ok := st.(*ast.GoStmt); ok {
+				out = append(out, yield())
+				n++
+			}
+		}
+		return out
+	}
+	ast.Inspect(f, func(nd ast.Node) bool {
+		switch x := nd.(type) {
+		case *ast.BlockStmt:
+			x.List = fix(x.List)
+		case *ast.CaseClause:
+			x.Body = fix(x.Body)
+		case *ast.CommClause:
+			x.Body = fix(x.Body)
+		}
+		return true
+	})
+	return n
 }
